@@ -47,8 +47,10 @@ type Env struct {
 	nonce map[string]int64
 	exbad map[string]bool
 	now   int64
-	// Tainted is set when an op took so long in real time that the logical clock may have ticked.
+	// Tainted is set when an op took so long in real time that the logical clock may have ticked,
+	// or when the env lived long enough for the mempool's one-minute sweep ticker to fire.
 	Tainted bool
+	born    time.Time
 }
 
 var (
@@ -69,6 +71,7 @@ func NewChainCfg() *types.Chain33Config {
 // NewEnv starts a mempool.
 func NewEnv(c EnvCfg) *Env {
 	e := &Env{Cfg: c, chain: map[string]bool{}, nonce: map[string]int64{}, exbad: map[string]bool{}}
+	e.born = time.Now()
 	e.CCfg = NewChainCfg()
 	e.hdr = &types.Header{Height: c.Height, BlockTime: c.BlkTime}
 	e.Q = queue.New("channel")
@@ -115,7 +118,7 @@ func (e *Env) Tick() { e.SetClock(e.now) }
 
 // Tock marks the env tainted when the real time since Tick allowed the logical second to roll over.
 func (e *Env) Tock() {
-	if time.Since(clockT0) > 700*time.Millisecond {
+	if time.Since(clockT0) > 700*time.Millisecond || time.Since(e.born) > 45*time.Second {
 		e.Tainted = true
 	}
 }
